@@ -147,6 +147,17 @@ CHECKS = {
              "no opcode used by a corpus file of that version is not detectable here.",
         technique="TLC exhaustive model checking over (table, opcode); TLC trace validation of the recorded table derivation; well-formedness of real code under the table",
     ),
+    "C15": dict(
+        category="model_checking",
+        text="Spec S9 (StackEffect.tla): dis.stack_effect as seven explicit rule classes (const, linear, bit, arg3, popcount4, lohisum, invalid) with a "
+             "per-version assignment opcode -> rule (StackEffectRules.json, derived from the interpreters). In every run TLC first validates the rule "
+             "table against dis.stack_effect of each installed 3.6-3.13 on the run's operand grid (oracle), then judges xdis: xstack_effect, "
+             "make_std_api(v).stack_effect for v in 3.6..3.13 and xdis.std.stack_effect, under several hosts, every opcode x every grid operand "
+             "(all rule boundaries, byte/word boundaries up to 2^30, seeded random operands) and without operand. Where CPython raises, xdis is free.",
+        design_ref="DESIGN.md section 5 C15, spec S9",
+        note="Quick grid: 0..39 + boundaries + 40 random operands per opcode (thorough: 0..299 + 400 random). Versions <= 3.5 have no reference here.",
+        technique="TLA+ rule-class model of stack effects, validated against CPython by TLC each run, then TLC trace validation of xdis over an operand grid",
+    ),
 }
 
 NOT_YET = "check not built yet in this round (planned: see DESIGN.md section 5); not claimed until its machinery exists"
